@@ -25,6 +25,10 @@ def main() -> int:
     ap.add_argument("--replay", default=None)
     args = ap.parse_args()
     prop = args.prop.upper()
+    # `kill -USR1 <pid>` prints where a long run currently is (development aid)
+    import faulthandler  # pylint: disable=import-outside-toplevel
+    import signal  # pylint: disable=import-outside-toplevel
+    faulthandler.register(signal.SIGUSR1, all_threads=True)
     seed = int(os.environ.get("VERIF_SEED", "20261001") or 20261001)
 
     # the implementation under test is /repo's working tree
